@@ -276,6 +276,30 @@ def chart_case_from_map(r, cid, res, tempo, pts, dense=False):
 def marathon_map(r):
     """A well-formed map whose LATER tempo events sit hours and days into the chart (a slow first segment, then changes
     just before / on / after the 24 h, 48 h ... marks), total time below ~10^6 s.  Returns (res, tempo, ticks of interest)."""
+    if r.random() < 0.35:
+        # the other way round: tens of millions of ticks at a very fast tempo (minutes), then very slow tempos - a tick
+        # there lasts minutes, so the tick NUMBER times the seconds per tick is astronomically larger than the time itself
+        res = r.choice([1, 2, 4, 7, 3])
+        n_fast = r.choice([10**9, 5 * 10**8, 999999999])
+        t1 = r.randrange(5 * 10**7, 9 * 10**7)
+        tempo = [[0, n_fast], [t1, r.choice([1, 3, 7, 13, 999])]]
+        elapsed = Fraction(t1 * 60000, n_fast * res)
+        pts = {0, 1, t1 - 1, t1}
+        t, n = t1, tempo[-1][1]
+        for _ in range(r.choice([0, 1, 2])):
+            dt = r.choice([1, 2, 5, 50])
+            if elapsed + Fraction(dt * 60000, n * res) > 900000:
+                break
+            t += dt
+            elapsed += Fraction(dt * 60000, n * res)
+            n = r.choice([1, 3, 7, 13, 1000, 120000])
+            tempo.append([t, n])
+            pts |= {t, t + 1}
+        room = int((Fraction(940000) - elapsed) * n * res / 60000)
+        for d in (1, 2, 5, 50, 200, room):
+            if 0 < d <= room and t + d <= 10**8:
+                pts.add(t + d)
+        return res, tempo, sorted(p for p in pts if 0 <= p <= 10**8)
     res = r.choice([192, 480, 100, 96, 1, 7])
     n0 = r.choice([1000, 1000, 2000, 500, 12000, 60000])            # slow first tempo (milli-BPM)
     tempo = [[0, n0]]
